@@ -41,12 +41,29 @@ Agrees(k, o) ==
            IN  /\ o.gnext[g][p + 1] \in {-1, D!NextOf(ms, p)}
                /\ o.gprev[g][p + 1] \in {-1, D!PrevOf(ms, p)}
 
+\* the VM's iteration instructions (VmDiscover.disc / dnext / discm; -1: not recorded): an iteration starts at the first (last)
+\* name, steps to the nearest remaining name from any value, and a member iteration starts at the group's first (last) member
+FirstOf(s) == IF s = <<>> THEN 0 ELSE s[1]
+LastOf(s) == IF s = <<>> THEN 0 ELSE s[Len(s)]
+VmAgrees(k, o) ==
+    LET ln == D!LightNames(k)  gn == D!GroupNames(k)
+    IN  /\ o.vstart[1] \in {-1, FirstOf(ln)} /\ o.vstart[2] \in {-1, LastOf(ln)}
+        /\ o.vstart[3] \in {-1, FirstOf(gn)} /\ o.vstart[4] \in {-1, LastOf(gn)}
+        /\ \A p \in 0..N + 1 : o.vnext[p + 1] \in {-1, D!NextOf(ln, p)} /\ o.vprev[p + 1] \in {-1, D!PrevOf(ln, p)}
+        /\ \A p \in 0..G + 1 : o.vgnext[p + 1] \in {-1, D!NextOf(gn, p)} /\ o.vgprev[p + 1] \in {-1, D!PrevOf(gn, p)}
+        /\ \A g \in 1..G :
+               LET ms == IF g \in {k[x].g : x \in DOMAIN k} THEN D!GroupMembers(k, g) ELSE <<>>
+               IN  o.mfirst[g] \in {-1, FirstOf(ms)} /\ o.mlast[g] \in {-1, LastOf(ms)}
+
 Say(ok, why) == PrintT(ToJson([id |-> R.id, ok |-> ok, why |-> why, at |-> i]))
 Init == rec \in 1..Len(Batch) /\ i = 1 /\ st = "run" /\ known = <<>> /\ now = 0 /\ hist = <<>>
 Next == /\ st = "run"
         /\ IF i > Len(R.steps) THEN Say(TRUE, "consistent") /\ st' = "done" /\ UNCHANGED <<rec, i, known, now, hist>>
            ELSE LET nx == After(R.steps[i])
                 IN  IF R.steps[i].raised THEN Say(FALSE, "the step raised an exception") /\ st' = "rej" /\ UNCHANGED <<rec, i, known, now, hist>>
+                    ELSE IF Agrees(nx[1], R.obs[i]) /\ ~VmAgrees(nx[1], R.obs[i])
+                    THEN Say(FALSE, "a VM iteration instruction (disc/dnext/discm) starts or steps differently from LightDir after this step")
+                         /\ st' = "rej" /\ UNCHANGED <<rec, i, known, now, hist>>
                     ELSE IF Agrees(nx[1], R.obs[i])
                     THEN /\ known' = nx[1] /\ now' = nx[2] /\ i' = i + 1 /\ UNCHANGED <<rec, st, hist>>
                     ELSE Say(FALSE, "the directory answers differently from LightDir after this step") /\ st' = "rej"
